@@ -447,6 +447,9 @@ func (w *World) Quiet() bool {
 		}
 	}
 	for _, t := range w.Torrents {
+		if chClosed(t.Done) {
+			continue // a dead torrent's queue is never read again
+		}
 		if t.SimEventLen() > 0 {
 			return false
 		}
